@@ -98,7 +98,7 @@ def real_runs(chk):
 
         T.SearchTask.execute = execute
         os.fork = counting_fork
-        for (m, f, c) in cfgs:
+        for ci_, (m, f, c) in enumerate(cfgs):
             if os.path.exists(rec):
                 os.unlink(rec)
             forks[0] = 0
@@ -112,9 +112,31 @@ def real_runs(chk):
             ndefs = 1 + (m + f + c) % 3
             sds = [SearchDef(r'hello (\d+)', tag=f't{j}')
                    for j in range(ndefs)]
-            for p in paths[:f]:
+            odd = ci_ % 3 == 1
+            if odd:
+                # the same files reached through a non-normalised directory
+                # spelling AND by path in that spelling: still one task each
+                sub = os.path.join(d, 'sub')
+                os.makedirs(sub, exist_ok=True)
+                for p in paths[:f]:
+                    q = os.path.join(sub, os.path.basename(p))
+                    if not os.path.exists(q):
+                        shutil.copy(p, q)
+                for extra in os.listdir(sub):
+                    if extra not in {os.path.basename(p) for p in paths[:f]}:
+                        os.unlink(os.path.join(sub, extra))
+                spelled = d + '/./sub'
                 for sd_ in sds:
-                    s.add(sd_, p)
+                    s.add(sd_, spelled)
+                    for p in paths[:f]:
+                        s.add(sd_, spelled + '/' + os.path.basename(p))
+                expected_paths = sorted(spelled + '/' + os.path.basename(p)
+                                        for p in paths[:f])
+            else:
+                for p in paths[:f]:
+                    for sd_ in sds:
+                        s.add(sd_, p)
+                expected_paths = sorted(paths[:f])
             res = s.run()
             S.os.cpu_count = real_cpu
             lines = open(rec).read().split('\n')[:-1] \
@@ -125,7 +147,8 @@ def real_runs(chk):
                         'distinct_pids': len(set(pids)),
                         'in_process': set(pids) == {parent},
                         'forks_from_parent': forks[0],
-                        'each_once': ran == sorted(paths[:f]),
+                        'each_once': ran == expected_paths,
+                        'odd_spelling': odd,
                         'results': len(res), 'defs': ndefs,
                         'completed': s.stats['jobs_completed'],
                         'total': s.stats['total_jobs']})
